@@ -294,7 +294,7 @@ func (t *simTx) Commit() error {
 	defer func() { c.txParty = "" }()
 	switch {
 	case kind == "ok" || kind == "bypass":
-		err := t.real.Commit()
+		err := c.e.w.realCommit(t.real.Commit)
 		c.observeReal(party, "commit", err)
 		if party != "" {
 			if err == nil {
@@ -305,7 +305,7 @@ func (t *simTx) Commit() error {
 		}
 		return err
 	case kind == "db.err" && arg == "lost-ack":
-		err := t.real.Commit()
+		err := c.e.w.realCommit(t.real.Commit)
 		c.observeReal(party, "commit", err)
 		if err == nil {
 			c.e.note(party, "committed")
